@@ -46,3 +46,78 @@ package roaring
 //@   ensures err == nil ==> 8 <= old(r.baseRoaringIterator.currentDataOffset) || cType == 3 || !r.haveRuns
 //@   ensures unchanged(r.baseRoaringIterator.data)
 //@   loop 1 invariant 0 <= $i + 1 && $i + 1 <= len(newRuns) && len(newRuns) == runCount && fresh(newRuns) && unchanged(r.baseRoaringIterator.data) && oitRI(r)
+
+// ---- interface-level contracts used by the decoders (assumed at call sites) -------
+// The collections keep their state in their own structs, the B-tree and the
+// key/container slices; calls through the interface may change exactly that.
+
+//@ contract (Containers).ResetN trusted props C06,C04,C05
+//@   modifies sliceContainers.*, bTreeContainers.*, tree.*, elemtype uint64, elemtype *Container
+//@ contract (Containers).PutContainerValues trusted props C06,C04,C05
+//@   modifies sliceContainers.*, bTreeContainers.*, tree.*, Container.*, elemtype uint64, elemtype *Container, elemtype uint16, elemtype interval16
+//@ contract (Containers).Iterator trusted props C06,C04,C05
+//@   modifies nothing
+//@   ensures citer != nil
+//@ contract (ContainerIterator).Next trusted props C06,C04,C05
+//@   modifies sliceIterator.*, btcIterator.*, enumerator.*
+//@ contract (ContainerIterator).Value trusted pure props C06,C04,C05
+//@   ensures result1 == nil || allocated(result1)
+//@   ensures result1 != nil ==> 0 <= result1.n && result1.n <= 65536
+//@   ensures result1 != nil ==> (result1.flags & 2) == 0   // containers of a bitmap under construction were thawed by PutContainerValues
+
+//@ contract (*Bitmap).UnmarshalBinary$dyn1 trusted pure props C06
+//@   ensures result == 1 || result == 2 || result == 3
+//@ contract readOffsets trusted props C06
+//@   requires b != nil
+//@   modifies sliceContainers.*, bTreeContainers.*, tree.*, Container.*, sliceIterator.*, btcIterator.*, enumerator.*
+//@ contract readWithRuns trusted props C06
+//@   requires b != nil
+//@   modifies sliceContainers.*, bTreeContainers.*, tree.*, Container.*, sliceIterator.*, btcIterator.*, enumerator.*, elemtype interval16
+
+// ---- stored bitmap data -------------------------------------------------------------
+
+//@ contract (*op).apply trusted props C06,C05
+//@   requires op != nil && b != nil
+//@   modifies sliceContainers.*, bTreeContainers.*, tree.*, Container.*, elemtype uint64, elemtype *Container, elemtype uint16, elemtype interval16
+
+//@ contract (*Bitmap).unmarshalPilosaRoaring props C06,C05
+//@   requires b != nil && b.Containers != nil && len(data) <= 4294967295
+//@   loop 1 invariant 0 <= i && i <= keyN && buf.ref == data.ref && buf.off == data.off + 8 + 12 * i && len(buf) == len(data) - 8 - 12 * i && cap(buf) == cap(data) - 8 - 12 * i && b != nil && b.Containers != nil
+//@   loop 1 decreases keyN - i
+//@   loop 2 invariant 0 <= i && i <= keyN && buf.ref == data.ref && buf.off == data.off + 8 + 12 * keyN + 4 * i && len(buf) == len(data) - 8 - 12 * keyN - 4 * i && cap(buf) == cap(data) - 8 - 12 * keyN - 4 * i && 0 <= opsOffset && opsOffset <= len(data) && citer != nil && b != nil && b.Containers != nil
+//@   loop 2 decreases keyN - i
+//@   loop 3 invariant buf.ref == data.ref && len(buf) <= len(data) && b != nil
+
+//@ contract (*Bitmap).UnmarshalBinary props C06
+//@   requires b != nil && b.Containers != nil && len(data) <= 4294967295
+//@   loop 1 invariant 0 <= i && i <= keyN && buf.ref == data.ref && len(buf) == len(data) - header - 4 * i && cap(buf) == cap(data) - header - 4 * i && b != nil && b.Containers != nil
+
+// ---- op codec ---------------------------------------------------------------------
+
+//@ contract (*op).UnmarshalBinary props C06,C05
+//@   requires op != nil && len(op.values) <= 576460752303423488 && len(op.roaring) <= 4611686018427387904 && len(data) <= 4611686018427387904
+//@   ensures result == nil ==> op.typ <= 5 && len(data) >= 13 && len(op.values) <= 576460752303423488 && len(op.roaring) <= 4611686018427387904
+//@   ensures result == nil && (op.typ == 2 || op.typ == 3) ==> 13 + 8 * len(op.values) <= len(data)
+//@   ensures result == nil && (op.typ == 4 || op.typ == 5) ==> 17 + len(op.roaring) <= len(data) && op.opN >= 0
+//@   ensures unchanged(data)
+//@   loop 1 invariant 0 <= i && i <= op.value && len(op.values) == op.value && op.value <= 576460752303423488 && op.value * 8 + 13 <= len(data) && fresh(op.values) && unchanged(data)
+//@   loop 1 decreases op.value - i
+
+//@ contract (*op).size props C05
+//@   requires op != nil && len(op.values) <= 576460752303423488 && len(op.roaring) <= 4611686018427387904
+//@   ensures (op.typ == 0 || op.typ == 1) ==> result == 13
+//@   ensures (op.typ == 2 || op.typ == 3) ==> result == 13 + 8 * len(op.values)
+//@   ensures (op.typ == 4 || op.typ == 5) ==> result == 17 + len(op.roaring)
+//@   modifies nothing
+//@ contract (*op).encodeSize props C05
+//@   requires op != nil && len(op.values) <= 576460752303423488
+//@   ensures (op.typ == 0 || op.typ == 1) ==> result == 13
+//@   ensures (op.typ == 2 || op.typ == 3) ==> result == 13 + 8 * len(op.values)
+//@   ensures (op.typ == 4 || op.typ == 5) ==> result == 17
+//@   modifies nothing
+//@ contract (*op).count props C05
+//@   requires op != nil && op.typ <= 5
+//@   ensures (op.typ == 0 || op.typ == 1) ==> result == 1
+//@   ensures (op.typ == 2 || op.typ == 3) ==> result == len(op.values)
+//@   ensures (op.typ == 4 || op.typ == 5) ==> result == op.opN
+//@   modifies nothing
